@@ -86,7 +86,7 @@ inline Gen<Value> doc_value(const DocOpts &o) {
                               });
     // multi-line values whose lines differ much in length (a writer that tracks its output column must use the LAST line's length
     // after such a value): 1-3 lines of 0..60 characters around one line of 1200..2040
-    auto tailv = rc::gen::map(rc::gen::tuple(range(1200, 2040), range(0, 0x3fffffff)),
+    auto tailv = rc::gen::map(rc::gen::tuple(rc::gen::weightedOneOf<int>({{3, range(1200, 2040)}, {1, range(2041, 2300)}}), range(0, 0x3fffffff)),
                               [](std::tuple<int, int> t) {
                                   int n = std::get<0>(t); uint32_t x = (uint32_t) std::get<1>(t) | 1u;
                                   auto shortline = [&]() { x = x * 1664525u + 1013904223u; int k = (int) ((x >> 10) % 61); return ustr((size_t) k, (char16_t) (u'a' + (x >> 24) % 26)); };
@@ -100,12 +100,15 @@ inline Gen<Value> doc_value(const DocOpts &o) {
                               });
     // values that need the text-prefix protocol (a line starting with ';', no triple-quoted form possible in CIF 2.0) AND hold a line
     // whose length is within a few characters of the line limit (the prefix takes two characters of every line)
-    auto pfxv = rc::gen::map(rc::gen::tuple(range(2038, 2052), range(0, 3)),
+    auto pfxv = rc::gen::map(rc::gen::tuple(range(2038, 2052), range(0, 5)),
                              [c2](std::tuple<int, int> t) {
                                  int n = std::get<0>(t), shape = std::get<1>(t);
                                  ustr head = c2 ? ustr(u"a\n;b \'\'\' \"\"\"") : ustr(u"a\n;b");
                                  ustr longline((size_t) n, u'x');
-                                 ustr s = shape == 0 ? head + u"\n" + longline : shape == 1 ? longline + u"\n" + head : shape == 2 ? head + u"\n" + longline + u"\nz" : longline.substr(0, (size_t) n - 8) + u"\n;" + head;
+                                 // shapes 4, 5: prefixed AND folded, the line's only blank within a few characters of where a folded segment must end
+                                 ustr s = shape == 0 ? head + u"\n" + longline : shape == 1 ? longline + u"\n" + head : shape == 2 ? head + u"\n" + longline + u"\nz"
+                                        : shape == 3 ? longline.substr(0, (size_t) n - 8) + u"\n;" + head
+                                        : shape == 4 ? head + u"\n" + longline + u" " + ustr(300, u'y') : head + u"\n" + longline.substr(0, (size_t) n - 8) + u"\t" + ustr(2100, u'y') + u" z";
                                  return Value::chr(s, true);
                              });
     if (o.hard_text) return rc::gen::weightedOneOf<Value>({{30, value(o.vo, 0)}, {1, longv}, {1, foldv}, {1, tailv}, {1, pfxv}, {7, hard_text(o.dialect == cp::CIF11)}});
